@@ -249,16 +249,17 @@ def _prove(pc, goal, timeout_ms=None, want_model=True, external=True):
         return done("unsat")
     if r == z3.sat:
         return done("sat", model=s.model() if want_model else None)
-    # (R) the same query without the DERIVED assumptions (proved facts, lemma instances, definitions of ghost functions): they do
-    # not change satisfiability, and they are what drags a simple refutation into non-linear / quantified reasoning
+    # (R) the same query without the DERIVED assumptions (proved facts, lemma instances, definitions of ghost functions): a proof
+    # from fewer hypotheses is a proof, and it is often found at once because the non-linear / quantified ballast is gone
     reduced = [c for c in pc if c.get_id() not in DERIVED]
-    if len(reduced) < len(pc):
+    if len(reduced) < len(pc) and not os.environ.get("PYVC_NO_R"):
         try:
             r2, s2 = _check(reduced, goal, min(3000, timeout_ms))
         except _Stuck:
             r2, s2 = z3.unknown, None
-        if r2 == z3.sat:
-            return done("sat", "z3-5.1.0 (derived facts dropped)", model=s2.model() if want_model else None)
+        # Only `unsat` is taken from this stage (fewer hypotheses: always sound).  A `sat` here was observed to be spurious once
+        # (multi_geometric_kernel: the full query is unsat) - with recursive spec functions (psum / ksum) the dropped lemma
+        # instances are what keeps a candidate model honest - so a model of the reduced query is NOT reported as a refutation.
         if r2 == z3.unsat:
             return done("unsat", "z3-5.1.0 (derived facts dropped)")
     if stuck is not None:
